@@ -1023,4 +1023,20 @@ def elemSummary : List Tok → String
 
 def writtenSummary (ts : List Tok) : List String := (splitTop ts).map elemSummary
 
+/-! ### a connection that refuses writes, with the multiplexer as the session's handler -/
+
+/-- the programs a `mux.ServeMux` (IQ handlers registered for the wildcard payload of the four
+defined types: `reg`; or nothing registered) effectively runs for the top-level elements `els` of
+a session, in order: `muxEffective` of each element with the registered handler's program -/
+def muxProgs (reg : Bool) (cfg : Cfg) : List (List Tok) → List Prog → List Prog
+  | [], _ => []
+  | el :: els, ps =>
+    (match firstElem cfg el with
+     | some (n, as, body) => muxEffective reg cfg n as body (ps.headD Prog.nop)
+     | none => ps.headD Prog.nop) :: muxProgs reg cfg els ps.tail
+
+/-- `serveW` with the multiplexer in front -/
+def serveWM (reg : Bool) (cfg : Cfg) (left : Nat) (inp : List Tok) (progs : List Prog) : Out :=
+  serveW cfg left inp (muxProgs reg cfg (splitTop inp) progs)
+
 end XmppModel.Serve
